@@ -31,7 +31,7 @@ vars == <<g, fb, nops, script, s, mismatch>>
 IsFb == g.cons = "fb"
 N == Len(fb)
 Bpp == IF IsFb THEN (g.bpp + 1) \div 8 ELSE 1
-NB == IF Bpp = 4 THEN 3 ELSE Bpp                       \* bytes the driver stores per pixel
+NB == IF Bpp = 4 /\ Bug = "Pack32ThreeBytes" THEN 3 ELSE Bpp   \* bytes the driver stores per pixel (3 of 4 before the repair)
 \* SetFont: the grid
 Cols == g.w \div g.gw
 Rows == IF Bug = "GridIgnoresLogo" THEN g.h \div g.gh ELSE (g.h - g.offY) \div g.gh
@@ -43,14 +43,19 @@ Set(st, o, v) == IF st.panic \/ o < 0 \/ o >= Len(st.fb) THEN [st EXCEPT !.panic
 PutPx(st, o, comp) ==
   LET p1 == Set(st, o, comp[1])
       p2 == IF NB >= 2 THEN Set(p1, o + 1, comp[2]) ELSE p1
-  IN IF NB >= 3 THEN Set(p2, o + 2, comp[3]) ELSE p2
+      p3 == IF NB >= 3 THEN Set(p2, o + 2, comp[3]) ELSE p2
+  IN IF NB >= 4 THEN Set(p3, o + 3, comp[4]) ELSE p3
 
 FbOffset(x, y) == (y + (IF Bug = "OffsetIgnoresLogo" THEN 0 ELSE g.offY)) * g.pitch + x * Bpp
 
 \* packColor16 / packColor24 (the first NB bytes of the packed colour)
 PackM(ci) == IF g.bpp = 8 THEN <<ci>>
-             ELSE LET lay == IF Bug = "Pack15As16" /\ g.bpp = 15 THEN <<11, 5, 5, 6, 0, 5>> ELSE g.ci IN
-                  [k \in 1..NB |-> C!PackByte(lay, g.pal[ci + 1], k - 1)]
+             ELSE LET lay == IF Bug = "Pack15As16" /\ g.bpp = 15 THEN <<11, 5, 5, 6, 0, 5>> ELSE g.ci
+                      c == g.pal[ci + 1]
+                      \* before the repair c >> uint8(8 - size) was 0 for a mask wider than 8 bits
+                      rgb == IF Bug = "PackWideMaskZero"
+                             THEN <<IF lay[2] > 8 THEN 0 ELSE c[1], IF lay[4] > 8 THEN 0 ELSE c[2], IF lay[6] > 8 THEN 0 ELSE c[3]>> ELSE c
+                  IN [k \in 1..NB |-> C!PackByte(lay, rgb, k - 1)]
 
 FdAt(fo) == IF fo + 1 <= Len(g.fd) THEN g.fd[fo + 1] ELSE 0
 
@@ -89,14 +94,15 @@ Clamp(a, max) == IF W32!IsZero(a) THEN 1 ELSE IF W32!Le(WNat(max), a) THEN max E
 Clip(a, o, max) ==
   LET room == max - o + 1
       clip == IF Bug = "FillClipWraps" THEN W32!Lt(WNat(max), W32!Sub(W32!Add(WNat(o), a), WNat(1)))   \* o+a-1 > max, mod 2^32
-              ELSE room > 0 /\ W32!Lt(WNat(room), a)
+              ELSE room >= 0 /\ W32!Lt(WNat(room), a)
   IN IF clip THEN room ELSE IF W32!Lt(WNat(1000), a) THEN -1 ELSE W32!ToNat(a)
 
 FillM(st, x, y, w, h, fg, bg) ==
   LET X == Clamp(x, Cols)  Y == Clamp(y, Rows)
       Wd == Clip(w, X, IF Bug = "FillClipWidthAgainstRows" THEN Rows ELSE Cols)
       Ht == Clip(h, Y, Rows)
-  IN IF Wd = -1 THEN st                                        \* row end wraps below the row start: nothing is painted
+  IN IF (Cols = 0 \/ Rows = 0) /\ Bug # "EmptyGridUnguarded" THEN st       \* no cell to paint (before the repair: origin 0 wraps)
+     ELSE IF Wd = -1 THEN st                                   \* row end wraps below the row start: nothing is painted
      ELSE IF Ht = -1 THEN [st EXCEPT !.panic = TRUE]           \* the row loop runs off the end of the buffer
      ELSE IF IsFb THEN FillRows(st, Ht * g.gh, FbOffset((X - 1) * g.gw, (Y - 1) * g.gh), Wd * g.gw * Bpp, PackM(bg))
      ELSE FillRows(st, Ht, (Y - 1) * g.w + (X - 1), Wd, <<((((bg * 16) | fg) * 256) % 65536) + g.clear>>)                  \* uint16 arithmetic
@@ -104,6 +110,7 @@ FillM(st, x, y, w, h, fg, bg) ==
 \* Scroll (loops that read ahead of what they overwrite = simultaneous assignment)
 ScrollM(st, dir, n) ==
   IF ~C!InGrid(n, Rows) THEN st
+  ELSE IF ~IsFb /\ g.w = 0 THEN (IF Bug = "EmptyGridUnguarded" /\ dir = 1 THEN [st EXCEPT !.panic = TRUE] ELSE st)   \* i = h*w-1 wraps
   ELSE
   LET l == W32!ToNat(n)
       off == l * g.gh * g.pitch
